@@ -232,6 +232,10 @@ def check_b(ck, repo):
         if not not_understood:
             ck.verdict(bool(init) and offv is not None and _t(init[0].env.get(offv, "")) == "0", "C19.b", bs, f"{offv} = 0", "offsets start at 0", "offsets do not start at 0")
     # ---- fit: ranks = enumerate(sorted(distinct non-missing values)); schema rebuilt
+    from .sem import attribute_held_in_local, drop_caches
+
+    if attribute_held_in_local(fit.node, "_categories"):
+        drop_caches(fit)
     floops = [l for l in own_nodes(fit.node) if isinstance(l, ast.For) and isinstance(l.target, ast.Name)]
     okr = False
     Xf = fit.named_params[1]
@@ -354,7 +358,21 @@ def check_b(ck, repo):
                 has_num = None if z is None else (not z)
             got[has_num] = p.ret_text().replace(" ", "")
         NEWn = ctext(NEW).replace(" ", "")
-        ck.verdict(got.get(True) == f"pandas.concat([{ctext(NUM)},{NEWn}],axis=1)".replace(" ", "") and got.get(False) == NEWn, "C19.b", tr, "DataFrame(res, columns=names, index=categorical.index); concat([numeric, indicators], axis=1)", "rows keep their order and index; numeric columns (the complement of the fitted columns) pass through unchanged", f"the indicator frame does not reuse the input index or numeric columns are not concatenated unchanged: {got}")
+
+        def _kwsorted(t_):
+            """the same call text with its keyword arguments in alphabetical order (their order does not matter)"""
+            try:
+                e_ = ast.parse(t_, mode="eval").body
+            except SyntaxError:
+                return t_
+            for c_ in ast.walk(e_):
+                if isinstance(c_, ast.Call):
+                    c_.keywords = sorted(c_.keywords, key=lambda k_: (k_.arg is None, k_.arg or ""))
+            return ast.unparse(e_).replace(" ", "")
+
+        NEWn = _kwsorted(NEWn)
+        got = {k_: _kwsorted(v_) for k_, v_ in got.items()}
+        ck.verdict(got.get(True) == _kwsorted(f"pandas.concat([{ctext(NUM)},{NEWn}],axis=1)") and got.get(False) == NEWn, "C19.b", tr, "DataFrame(res, columns=names, index=categorical.index); concat([numeric, indicators], axis=1)", "rows keep their order and index; numeric columns (the complement of the fitted columns) pass through unchanged", f"the indicator frame does not reuse the input index or numeric columns are not concatenated unchanged: {got}")
 
 
 def _branch_of(fi, loop):
